@@ -131,6 +131,20 @@ JNfaOp(e) ==
      \cup (IF e.name = "concatenation" THEN {}
            ELSE Bad("new_state_fresh", ~(operands \subseteq C.Q /\ Cardinality(C.Q) = Cardinality(operands) + 1)))
 
+(* C19 inside a replayed session: objects that existed before a call are the same after it *)
+JOperandsKept(e) == Bad("operands_unchanged", e.before # e.after)
+
+(* (G) a behaviour of Session.tla replayed into the real code: the projected   *)
+(* objects after the last call must equal the specification's state            *)
+JSessionReplay(e) ==
+  LET n == Len(e.expected)
+  IN Bad("binding_raises_like_spec", e.exc_expected # e.exc_actual)
+     \cup (IF e.exc_expected = e.exc_actual /\ Len(e.actual) = n
+           THEN Bad("binding_result_equals_spec_state", n > 0 /\ e.actual[n] # e.expected[n])
+                \cup Bad("binding_operands_equal_spec_state",
+                         \E i \in 1..(n - 1) : e.actual[i] # e.expected[i])
+           ELSE Bad("binding_store_size", e.exc_expected = e.exc_actual))
+
 -----------------------------------------------------------------------------
 (* C20 *)
 JIso(e) ==
